@@ -513,6 +513,7 @@ type Axiom struct {
 type GhostDecl struct {
 	Name string
 	Type string
+	Log  bool // observational record (last arguments of a call …): exempt from frame conditions
 }
 
 type SpecSet struct {
@@ -835,10 +836,10 @@ func (ss *SpecSet) parseContractText(file, pkg string, lines []string, lineNos [
 			ss.Consts[strings.TrimSpace(rest[:i])] = e
 		case "ghost":
 			f := strings.Fields(rest)
-			if len(f) != 2 {
-				return fail(it, "ghost NAME TYPE")
+			if len(f) != 2 && !(len(f) == 3 && f[2] == "log") {
+				return fail(it, "ghost NAME TYPE [log]")
 			}
-			ss.Ghosts[f[0]] = &GhostDecl{Name: f[0], Type: f[1]}
+			ss.Ghosts[f[0]] = &GhostDecl{Name: f[0], Type: f[1], Log: len(f) == 3}
 		case "spec", "pred":
 			sf, err := parseSpecFunc(kw, rest)
 			if err != nil {
